@@ -549,6 +549,10 @@ class UnionMetaType(StructureMetaType):
                 anonymous_struct = field.type
                 continue
 
+            if anonymous_struct and (anonymous_struct.size or 0) > (field.type.size or 0):
+                # The anonymous struct we skipped is larger than any regular field, write that one instead
+                break
+
             # Write the value
             field.type._write(stream, getattr(data, field._name))
             break
